@@ -477,6 +477,9 @@ func init() {
 		if g != nil {
 			ga := NewGA(prog, g.Tab)
 			checkOperatorSpellings(r, ga, "c04")
+			r.importing = "C15"
+			checkActionsDoNotRewrite(r, prog, "c15") // both spellings of a pair hand the same literal and selector to the same node
+			r.importing = ""
 		}
 		r.Technique = "abstract execution of the match dispatcher over {lookup error, absent, present}×{matcher true/false/error} per operator constant; constant-table extraction from NotPresentDisposition; constant inference on the grammar's operator rules"
 		r.Explain = "For each of the eight operator constants and each scenario, every feasible path through the match dispatcher is followed with the lookup and the matcher replaced by their assumed outcome: the positive form forwards the matcher's pair, the negated form returns the negation exactly when the matcher returns no error and (false, err) otherwise, both consult the same matcher with the same arguments and have the same returns before the dispatch; an absent key yields NotPresentDisposition() for every operator and the table is complementary per pair; `contains`/`not contains` parse to the same constants as `in`/`not in`. Not decided here: that the positive matcher is right (C02)."
